@@ -633,6 +633,8 @@ def send_limit_problems(repo, hier):
 def run(repo, rep):
     from ..pitfalls import memo_rule as _memo_rule
     _memo_rule(repo, rep, 'C06', 'C06.Z1')
+    from ..pitfalls import log_rule as _log_rule
+    _log_rule(repo, rep, 'C06', 'C06.Z2')
     dm = repo.module('dimsemessages')
     hier = exc_hierarchy(repo)
     k_pdv, lx = overhead(repo)
